@@ -45,6 +45,7 @@ SCEN = {
     'LenS': lambda inv=(): sc('MC_LenS', 4, 5, inv),
     'PushS': lambda inv=(): sc('MC_PushS', 4, 5, inv),
     'PushC': lambda inv=(): sc('MC_PushC', 5, 6, inv),
+    'FrameS': lambda inv=(): sc('MC_FrameS', 4, 5, inv),
 }
 
 
@@ -55,7 +56,7 @@ def scen(names, inv):
 PROPS = {
     'C01': {'scenarios': scen('Pair1', ['P_C01_DeliveredSendsAccepted', 'RaisingCallEmitsNothing']) + [sc('MC_Pair2', 5, 7, ['P_C01_DeliveredSendsAccepted', 'RaisingCallEmitsNothing'])],
             'lens': [(ALL_PUBLIC, ANY)]},
-    'C02': {'scenarios': scen('Pair1 LifeS LifeC MiscC', ['P_C02_FramesWithinLimits', 'RaisingCallEmitsNothing']),
+    'C02': {'scenarios': scen('Pair1 LifeS LifeC MiscC FrameS', ['P_C02_FramesWithinLimits', 'RaisingCallEmitsNothing']),
             'lens': [(['o'], ANY), (['q.mof'], ANY)]},
     'C03': {'scenarios': scen('FlowS SetC PushS', ['P_C03_SendWithinWindows', 'P_C03_WindowsBounded']),
             'lens': [(['q.lw', 'z.ow', 'z.streams.ow'], ANY), (['r', 'o'], S('call:data')), (['r', 'e'], S('frame:WU'))]},
@@ -87,13 +88,13 @@ PROPS = {
             'lens': [(['r', 'e', 'o', 'z.streams.ecl', 'z.streams.acl', 'z.streams.meth'], S('frame:HEADERS', 'frame:DATA'))]},
     'C17': {'scenarios': scen('CloseS HdrInS HdrInC LifeC', ['OnlyKnownExceptions']),
             'lens': [(['r'], S('recv', 'dlv'))]},
-    'C18': {'scenarios': scen('CloseS LifeS SetS HdrInS', ['P_C18_OneGoAwayWithCode']),
+    'C18': {'scenarios': scen('CloseS LifeS SetS HdrInS FrameS', ['P_C18_OneGoAwayWithCode']),
             'lens': [(['r', 'o'], S('recv', 'dlv'))]},
     'C19': {'scenarios': scen('CloseS MiscC', ['P_C19_ClosedStaysQuiet']),
             'lens': [(['r', 'o', 'z.conn'], ANY)]},
     'C20': {'scenarios': scen('LifeC LifeS Pair1 PushC', ['P_C20_ResetRacesAreStreamErrors']),
             'lens': [(['r', 'o', 'e', 'q.rw', 'z.iw'], S('recv', 'dlv'))]},
-    'C21': {'scenarios': [dict(s, chunked=True) for s in scen('LifeS LifeC MiscC CloseS', [])],
+    'C21': {'scenarios': [dict(s, chunked=True) for s in scen('LifeS LifeC MiscC CloseS FrameS', [])],
             'lens': [(['r', 'o', 'e'], S('recv', 'dlv'))]},
     'C22': {'scenarios': scen('LifeC SetC MiscS Pair1 PushC PushS', ['P_C22_PushOnlyWhenAllowed']),
             'lens': [(['r', 'o', 'e'], S('call:push', 'frame:PP')), (['r', 'e'], S('frame:HEADERS', 'frame:DATA'))]},
